@@ -29,6 +29,15 @@ CLAIMED = {
     'C04': ('4 C04', 'draw of one character of each width class from symbolic pre-states against a reference placement '
             'semantics; strings are lifted by a relational check (one call == one call per character) decided by z3 '
             'over two runs of the implementation.'),
+    'C09': ('4 C09', 'Inductive: the well-formedness statement is established by Screen::new for symbolic sizes and preserved '
+            'by every listener method, resize (symbolic target sizes) and display from an arbitrary symbolic well-formed '
+            'state; each clause is a separate solver query per path.'),
+    'C17': ('4 C17', 'For every operation of the sweep from a symbolic state with a just-cleared dirty set, z3 decides that '
+            'every row whose observable cells changed is in the dirty set, that screen-wide operations mark all rows, and '
+            'that no index outside the screen is present.'),
+    'C10': ('4 C10', 'display() output against a reference rendering over every arrangement of narrow/wide/placeholder/'
+            'combining/absent cells; purity as a relational lemma decided by z3 over two runs of every operation from '
+            'states that differ only in an arbitrary symbolic set of materialised blanks (what display() does).'),
 }
 
 ALL = ['C%02d' % i for i in range(1, 21)]
